@@ -90,6 +90,13 @@ _add("C06",
      "Trusted: quiescence barrier = 1 ms sleep on the paused clock (ends only when the reader task is blocked). Message id 0x54 is excluded from 'unknown' ids.",
      assumptions=SIM_ASSUMPTIONS)
 
+_add("C12",
+     "online invariant monitor over the manager's state after every handled command (event sink inside the manager task), with histories generated by real connection tasks driven by hostile scripted peers on a paused clock",
+     "seeded scenarios: 2..5 peers drawn from personas flapper (choke/unchoke storms incl. redundant ones, data after choke, Have spam), corruptor (bit flips, wrong offset/index/length, duplicates, unrequested and overlapping blocks), disconnector (mid-frame, on request, after k blocks, at a time), choke-then-data, sparse holders and honest seeders; 1..30 pieces (both sides of the end-game threshold); failpoints armed in 2/3 of the runs; plus a targeted family 'late data after re-assignment'. After every manager event: I1 owned stays owned; I2 Reserved(n) implies a connected, unchoking peer assigned to the piece; I3 every (re)assignment names an advertised, not yet owned piece; I4 no manager panic and the loop still answers. Distinct non-trivial = distinct manager interleaving signatures (hash of the (peer, command kind) sequence handled).",
+     "Exploration: 4e3 (quick) / 1e5 (thorough) scenarios, about 350 manager states each, checked after every command; evidence lists the command-kind bigrams and abstract manager states that were actually observed.",
+     "Trusted: the snapshot hook reads the manager's private fields at the end of each handled command (quiescent by construction: the manager is a single task). Only the over-count direction is judged (a stale reservation), as the property states.",
+     assumptions=SIM_ASSUMPTIONS)
+
 NOT_APPLICABLE = []
 
 HOOK_COMMITS = ['f4e11fff6207578681bfe159fde132435a75db6b', 'c80cd8e781736d9cf047ae63c4117d911e79b492', '36e923c803e32367e0b9567db19ed45c7e679e57', 'd4d0caac768fbc161be45a56b818f54b8f8544b7', '18ace6ea4c44e4f9b55cbb2adc1f6155c1036680']
